@@ -229,14 +229,14 @@ func Pair(a, b Op, prefill []Op, iters int, timeout time.Duration, out *Out) {
 		}
 	}
 	ops := []Op{a, b}
-	plan := [][]int{{0}, {1}, {0}, {1}}
+	plan := [][]int{{0}, {1}, {0}, {1}, {0}, {1}} // six goroutines: the op tables vary their inputs with g%3 and (g/2)%2
 	panics := atomic.Int64{}
 	ok := runWorkers(e, ops, plan, iters, timeout, out, func(g, k int, o Op, res string) {
 		if res == "panic" {
 			panics.Add(1)
 		}
 	})
-	out.Stat("pair_calls", 4*iters)
+	out.Stat("pair_calls", len(plan)*iters)
 	out.Stat("pair_panics", int(panics.Load()))
 	if ok {
 		fmt.Fprintf(out.W, "returned %s %s\n", a.Name(), b.Name())
@@ -333,6 +333,10 @@ func DiscoverOps(types []string) []Op {
 
 // StressRace: every operation of the component from `goroutines` goroutines, no harness synchronisation.
 func StressRace(comp string, goroutines, iters int, seed int64, timeout time.Duration, out *Out) {
+	if comp == "pubkeyfork" {
+		StressFork(goroutines, iters, timeout, out)
+		return
+	}
 	types := Components[comp]
 	ops := opsOf(types, DiscoverOps(types))
 	bad, blk := SeqProbe(ops, out, timeout)
@@ -362,6 +366,15 @@ func StressRace(comp string, goroutines, iters int, seed int64, timeout time.Dur
 		if len(plan[g]) == 0 {
 			out.Note("skip component " + comp + ": constructor failed")
 			return
+		}
+		// two goroutines of the pools run stay on one operation each, so that a long Search keeps overlapping
+		// with aggregates that extend existing attestation data (g=2 adds growing aggregates, g=3 searches their slots)
+		if focus, ok := map[string]map[int]string{"pools": {2: "AttestationPool.AddAttestation", 3: "AttestationPool.Search"}}[comp][g]; ok {
+			for i, o := range live {
+				if o.Name() == focus && !skipOp(e, o) {
+					plan[g] = []int{i}
+				}
+			}
 		}
 	}
 	var panics sync.Map
@@ -628,10 +641,17 @@ func linPools(goroutines, iters int, timeout time.Duration, out *Out) {
 				set(add.Name())
 				// aggregates only (even g in the op table): always accepted, whatever the order
 				h.do(g, "att.add", x, func() string { return add.Call(e, 0, x) })
+				// aggregates extending existing data with new participants: accepted in every order as well
+				h.do(g, "att.grow", k, func() string { return add.Call(e, 2, k*7+g) })
+				if k%4 == 2 {
+					s, _ := FindOp("AttestationPool", "Search")
+					set(s.Name())
+					h.do(g, "att.searchgrow", k%4, func() string { return s.Call(e, 2, k) })
+				}
 				if k%4 == 0 {
 					s, _ := FindOp("AttestationPool", "Search")
 					set(s.Name())
-					h.do(g, "att.search", k%8, func() string { return s.Call(e, g, k) })
+					h.do(g, "att.search", k%8, func() string { return s.Call(e, 0, k) })
 				}
 			}
 			set("")
@@ -725,7 +745,13 @@ func linPools(goroutines, iters int, timeout time.Duration, out *Out) {
 				kind = "panic"
 			}
 			report(fmt.Sprintf("%s: AttestationPool.AddAttestation(aggregate %d) returned %s, every sequential order returns ok", kind, r.arg, r.res))
-		case r.op == "att.search" && r.res == "panic":
+		case r.op == "att.grow" && r.res != "ok":
+			kind := "result"
+			if r.res == "panic" {
+				kind = "panic"
+			}
+			report(fmt.Sprintf("%s: AttestationPool.AddAttestation(aggregate with new participants for existing data) returned %s, every sequential order returns ok", kind, r.res))
+		case (r.op == "att.search" || r.op == "att.searchgrow") && r.res == "panic":
 			report("panic: AttestationPool.Search panicked under concurrency (sequential probe clean)")
 		}
 	}
